@@ -84,11 +84,19 @@ CasesC15(lazy) == {[base |-> Base15, target |-> t] : t \in Targets15}
             \cup {[base |-> Deep15, target |-> t] : t \in DeepTargets15}
             \cup {[base |-> t, target |-> Deep15] : t \in DeepTargets15}
             \cup {[base |-> t, target |-> Base15] : t \in Edits(Base15) \cup KindEdits(Base15)}
+            (* a removed entry that is a partial match of an entry kept EARLIER in the list (before the first difference) *)
+            \cup {[base |-> Put(Base15, "l", pr[1]), target |-> Put(Base15, "l", pr[2])]
+                    : pr \in { <<L(<<E2, E1, I("3")>>), L(<<E2, I("3")>>)>>, <<L(<<E2, EmptyMap, I("3")>>), L(<<E2, I("3")>>)>>,
+                               <<L(<<I("3"), E2, E1>>), L(<<I("3"), E2>>)>>, <<L(<<E2, E1, E1>>), L(<<E2, E1>>)>>,
+                               <<L(<<E2, E1>>), L(<<E2, E1, E1>>)>> }}
 
 Unrelated == Mk2("q", I("1"), "l", L(<<S("u")>>))
 (* values that print alike but differ in type are different values *)
 TypeEdits(t) == { Put(t, "l", L(<<Single("k", S("1")), E2, I("3")>>)), Put(t, "l", L(<<E1, E2, S("3")>>)),
-                  Put(t, "a", S("1")), SetM(t, "y", L(<<S("1"), I("2")>>)), Put(t, "s", True) }
+                  Put(t, "a", S("1")), SetM(t, "y", L(<<S("1"), I("2")>>)), Put(t, "s", True),
+                  (* two integers that are one double *)
+                  Put(t, "big", I("9007199254740993")), Put(t, "big", I("9007199254740992")),
+                  SetM(t, "ts", I("1700000000000000001")), SetM(t, "ts", I("1700000000000000000")) }
 Pool16 == {Base15, Unrelated} \cup Edits(Base15) \cup KindEdits(Base15) \cup TypeEdits(Base15)
 CasesC16(lazy) == {[inputs |-> <<x, y>>] : x \in Pool16, y \in Pool16}
             \cup (IF Bound >= 2 THEN {[inputs |-> <<Base15, x, y>>] : x \in Edits(Base15), y \in {Put(Base15, "a", I("2")), Del(Base15, "a"), SetM(Base15, "y", L(<<I("2"), I("1")>>)), Unrelated}} ELSE {})
